@@ -404,6 +404,8 @@ def plan(tier):
         P.append(("w8-multipart", 8, 2, False, "multipart", 0))
         P.append(("w8-n1-top", 8, 1, False, "top", 0))
         P.append(("w3-n2-top", 3, 2, False, "top", 0))
+        P.append(("w8-n1-top-thr2", 8, 1, False, "top", 2))      # unknown operands with the complexity threshold on
+        P.append(("w3-n2-top-thr2", 3, 2, False, "top", 2))
     else:
         for W in (1, 2, 3, 4, 8):
             P.append(("w%d-n1" % W, W, 1, True, None, 0))
@@ -418,6 +420,8 @@ def plan(tier):
         P.append(("w8-n1-top", 8, 1, True, "top", 0))
         P.append(("w3-n2-top", 3, 2, False, "top", 0))
         P.append(("w4-n2-top", 4, 2, False, "top", 0))
+        P.append(("w8-n1-top-thr2", 8, 1, True, "top", 2))
+        P.append(("w3-n2-top-thr2", 3, 2, False, "top", 2))
     return P
 
 
@@ -538,7 +542,7 @@ def run_pass(tier, seed):
         trees = core.rotate(trees, seed)
         nchunks = max(1, min(len(trees) // 200, core.NPROC * 8))
         chunks = [trees[i::nchunks] for i in range(nchunks)]
-        rawmax = 2 if (tier != "quick" or label.endswith("-top")) else 1
+        rawmax = 2 if (tier != "quick" or ("-top" in label)) else 1
         res = core.pmap(run_chunk, [(W, widths, thr, c, rawmax) for c in chunks if c])
         ps = {}
         for st, out in res:
